@@ -101,7 +101,7 @@ static uint64_t run_case(const TinyLP& t, const ConfigSpace::Cfg& cfg, bool exac
 static uint64_t run_planted16(const PlantedSpec& sp, const ConfigSpace::Cfg& cfg, bool exact, Ctx& c)
 {
    PlantedLP P = planted(sp);
-   if(exact) { if(sp.kind == 0) P.cl.opt -= Q(P.lp.offset); P.lp.offset = 0; }
+   if(exact) { if(sp.kind == 0 || sp.kind == 3) P.cl.opt -= Q(P.lp.offset); P.lp.offset = 0; }
    c.count(std::string("planted_class.") + sp.kindName());
    return run_case_cl(P.lp, P.cl, sp.str(), "+planted", cfg, exact, c);
 }
@@ -141,7 +141,7 @@ static uint64_t run_case_cl(const TinyLP& t, const Classification& cl, const std
       case K_INTERRUPT: g_raiseAt = point; expectAbort = -7; break;
       case K_TIMEJUMP: g_jumpAt = point; expectAbort = -7; break;
       case K_TIMEZERO: spx.setRealParam(SoPlex::TIMELIMIT, 0.0); expectAbort = -7; break;
-      case K_OBJLIM: spx.setRealParam(SoPlex::OBJLIMIT_LOWER, objlimLo); spx.setRealParam(SoPlex::OBJLIMIT_UPPER, objlimUp); expectAbort = -9; break;
+      case K_OBJLIM: spx.setRealParam(SoPlex::OBJLIMIT_LOWER, objlimLo); spx.setRealParam(SoPlex::OBJLIMIT_UPPER, objlimUp); expectAbort = -5; break;      // SPxSolver::ABORT_VALUE == -5
       }
       int st;
       try
@@ -162,11 +162,11 @@ static uint64_t run_case_cl(const TinyLP& t, const Classification& cl, const std
       if(st < 0 && st != expectAbort && kind != K_OBJLIM)   // the statement prescribes the abort status for iteration / time / interrupt stops only
       {
          // another give-up status: allowed only if it is an abort caused by the injected stop
-         if(!(st == -6 || st == -7 || st == -9) || (kind == K_ITER && st != -6) || ((kind == K_INTERRUPT || kind == K_TIMEJUMP || kind == K_TIMEZERO) && st != -7))
+         if(!(st == -6 || st == -7 || st == -5) || (kind == K_ITER && st != -6) || ((kind == K_INTERRUPT || kind == K_TIMEJUMP || kind == K_TIMEZERO) && st != -7))
             if(!(!cl.hasopt && (st == -4 || st == -8)))
             { c.violation("wrong-abort-status:got" + std::to_string(st) + ":" + where, cs, "status " + std::to_string(st) + " expected " + std::to_string(expectAbort) + " or a true verdict" + pt); return; }
       }
-      if(kind == K_OBJLIM && st == -9)
+      if(kind == K_OBJLIM && st == -5)
       {
          // ABORT_VALUE only if the optimum really lies beyond the limit in the direction of optimisation
          bool beyond = cl.hasopt && (t.maximize ? cl.opt.get_d() <= objlimLo + 1e-9 : cl.opt.get_d() >= objlimUp - 1e-9);
@@ -368,6 +368,7 @@ int main(int argc, char** argv)
       pg.sizes = {{5, 8}, {8, 5}, {10, 10}, {16, 12}, {12, 20}};
       pg.densities = {40};
       pg.seeds = thorough ? 10 : 2;
+      pg.kinds = 4;     // with the covering LPs: the dual simplex starts dual feasible, so objective limits really stop it (ABORT_VALUE)
       auto sfxP = [&](uint64_t idx, uint64_t sub) { return std::string("@") + (sub >= 999999 ? "timelimit0" : sub >= 100000 ? "timelimit" : sub >= 1000 ? "interrupt" : sub >= 499 ? "interrupt-at-entry" : "iterlimit") + "|" + g_cs.str(cfgs[idx % NC]) + "+planted"; };
       rep.phase("stop points: planted LPs up to 16x12 / 12x20 x 11 configurations (floating point)", pg.size() * NC, [&](uint64_t idx, int, Ctx & c) -> uint64_t
       {
@@ -378,12 +379,13 @@ int main(int argc, char** argv)
       pe.sizes = {{5, 8}, {8, 5}, {10, 10}};
       pe.densities = {40};
       pe.seeds = thorough ? 4 : 1;
+      pe.kinds = 4;
       rep.phase("stop points: planted LPs up to 10x10, exact solves", pe.size() * 2, [&](uint64_t idx, int, Ctx & c) -> uint64_t
       {
          c.count("lp_x_cfg_planted_exact");
          return run_planted16(pe.at(idx / 2), cfgs[(idx % 2) ? 0 : 7], true, c);
       }, [&](uint64_t idx, uint64_t) { return pe.at(idx / 2).str() + "#" + g_cs.str(cfgs[(idx % 2) ? 0 : 7]) + "#exact"; }, o);
-      rep.extra["planted_grid"] = jstr("floating point: sizes (n x m) 5x8 8x5 10x10 16x12 12x20, density 40 %, degenerate 0/1, min/max, kinds OPT/INF/UNB, seeds 0.." + std::to_string(pg.seeds - 1) + "; exact: 5x8 8x5 10x10, seeds 0.." + std::to_string(pe.seeds - 1));
+      rep.extra["planted_grid"] = jstr("floating point: sizes (n x m) 5x8 8x5 10x10 16x12 12x20, density 40 %, degenerate 0/1, min/max, kinds OPT/INF/UNB/COV, seeds 0.." + std::to_string(pg.seeds - 1) + "; exact: 5x8 8x5 10x10, seeds 0.." + std::to_string(pe.seeds - 1));
    }
    auto& C = rep.all.counters;
    uint64_t stopped = C["stopped_runs.iterlimit"] + C["stopped_runs.interrupt"] + C["stopped_runs.timelimit"] + C["stopped_runs.timelimit0"] + C["stopped_runs.objlimit"] + C["interrupted_continuations"];
